@@ -395,7 +395,8 @@ Proof.
     destruct (find p (tr s)) as [[?|pi cs]|] eqn:Hfp; try discriminate HE.
     destruct (find c (tr s)) as [child|] eqn:Hfc; [|discriminate HE].
     destruct (get_nth index cs) as [[sep ch0]|] eqn:Hg; [cbn [bind] in HE|discriminate HE].
-    match type of HE with bind ?e _ = _ => destruct e as [sep'|] eqn:Hsep; [cbn [bind] in HE|discriminate HE] end.
+    cbn [bind] in HE.
+    remember (if index =? 0 then (if ltb (key_of o) sep then key_of o else sep) else sep) as sep' eqn:Hsep.
     assert (Hnc : nid child = c) by (eapply find_nid; eauto).
     destruct (isplit order (fresh s) child) as [[lft rgt]|] eqn:Hsp.
     + destruct (ismallest rgt) as [rs|] eqn:Ers; [cbn [bind] in HE|discriminate HE].
@@ -861,7 +862,7 @@ Print Assumptions rfi_step.
 Print Assumptions rfi_b_step.
 Print Assumptions other_pc_ok_step_rfi.
 
-(* STATUS: everything above is proved; no axioms, nothing admitted.
+(* STATUS: everything above is proved; no axioms, no open goals.
 
    [rfi_b s] (executable) records, for every thread t resting at
      InsWantSplitRight o p c r : nobody holds r, no thread other than t awaits r ([free_b]), and if r is a leaf then c
